@@ -1525,7 +1525,9 @@ fn gen_program(rng: &mut Rng, adversarial: bool) -> SourceCase {
   let ext = *rng.pick(&[Ext::Js, Ext::Js, Ext::Mjs, Ext::Cjs, Ext::Jsx, Ext::Ts, Ext::Ts, Ext::Mts, Ext::Tsx, Ext::Dts]);
   let nl = *rng.pick(&["\n", "\n", "\n", "\r\n", "\r\n", "\r"]);
   let bom = rng.chance(15);
-  let n_stmts = rng.range(1, 7);
+  // now and then a module that consists of comments only (pragmas, references, a shebang line): the
+  // analyser then has no first statement to take the leading comments from
+  let n_stmts = if rng.chance(8) { 0 } else { rng.range(1, 7) };
   let mut g = Gen { rng, ext, nl, out: String::new(), expected: vec![], counter: 0, adversarial };
   g.header();
   for _ in 0..n_stmts {
@@ -1569,6 +1571,7 @@ fn gen_program(rng: &mut Rng, adversarial: bool) -> SourceCase {
       }
       3 => {
         src = format!("#!/usr/bin/env deno{}/// <reference path=\"./p.d.ts\" />{}", nl, nl);
+        expected = Some(vec![(5, 0, "./p.d.ts".to_string())]);
       }
       _ => {}
     }
